@@ -82,6 +82,18 @@ def make_weight(E, h, kind, N, K, dtype):
 def make_act(E, h, kind, shape, dtype):
     if kind == "float":
         return new_input(E, "X", dtype, shape)
+    if kind == "qint4":
+        # a packed low-bit tensor used as the INPUT of the linear function (per-axis along the rows, rank 2)
+        cls = E.get(f"{OC.QBITS}::QBitsTensor")
+        qt = E.load_module(OC.QTYPE).env.lookup("qint4")
+        data = new_input(E, "X_c", "uint8", list(shape))
+        cid, cinb = idx_vars("xq", list(shape))
+        E.assume(z3.ForAll(cid, z3.Implies(z3.And(*cinb), z3.And(data.elem(cid) >= 0, data.elem(cid) < 16))))
+        sc = new_input(E, "X_s", dtype, [shape[0], 1])
+        zp = new_input(E, "X_z", "int8", [shape[0], 1])
+        zid, zinb = idx_vars("xz", [shape[0], 1])
+        E.assume(z3.ForAll(zid, z3.Implies(z3.And(*zinb), z3.And(zp.elem(zid) >= 0, zp.elem(zid) < 16))))
+        return E.call(cls, [qt, 0, None, tuple(shape), contiguous_strides(list(shape)), data, sc, zp], {})
     h2 = OC.H(E, {"qint8": "qint8", "qfloat8": "qfloat8_e4m3fn", "qfloat8_e5m2": "qfloat8_e5m2"}[kind], None, dtype)
     return h2.q(shape, name="X", axis=None)
 
@@ -89,11 +101,13 @@ def make_act(E, h, kind, shape, dtype):
 def linear_cases(run):
     quick = run.tier == "quick"
     for wkind in ("qint8-axis0", "qint8-per-tensor", "qfloat8-axis0", "qint4-axis0", "qint2-axis0", "qfloat8_e5m2-axis0"):
-        for akind in ("float", "qint8", "qfloat8", "qfloat8_e5m2"):
+        for akind in ("float", "qint8", "qfloat8", "qfloat8_e5m2", "qint4"):
             for dtype in ("float32", "float16", "bfloat16"):
-                for brank in (1, 2, 3):   # (a 1-D input returns shape (1, out) instead of (out,): outside the property's batch ranks 1..3; remark in DESIGN.md)
+                for brank in ((1,) if akind == "qint4" else (1, 2, 3)):   # (a 1-D input returns shape (1, out) instead of (out,): outside the property's batch ranks 1..3; remark in DESIGN.md)
                     for bias in (False, True):
                         for device in ("cpu", "cuda", "mps"):
+                            if akind == "qint4" and (device != "cpu" or (quick and not (dtype == "float32" and wkind in ("qint8-axis0", "qint4-axis0")))):
+                                continue
                             if quick:
                                 if (wkind in ("qint2-axis0", "qfloat8_e5m2-axis0") or akind == "qfloat8_e5m2") and not (dtype == "float16" and brank == 2 and not bias and device == "cpu"):
                                     continue
@@ -179,6 +193,9 @@ def run_linear(run):
             def adeq(bi, kk):
                 if akind == "float":
                     return z3.Function("X", *([z3.IntSort()] * (brank + 1)), R)(*bi, kk)
+                if akind == "qint4":
+                    I2 = [z3.IntSort(), z3.IntSort()]
+                    return z3.Function("X_s", *I2, R)(bi[0], 0) * z3.ToReal(z3.Function("X_c", *I2, z3.IntSort())(bi[0], kk) - z3.Function("X_z", *I2, z3.IntSort())(bi[0], 0))
                 d = z3.Function("X_d", *([z3.IntSort()] * (brank + 1)), z3.IntSort() if akind == "qint8" else R)(*bi, kk)
                 return z3.Const("X_s", R) * (z3.ToReal(d) if akind == "qint8" else d)
             bi = ids[:-1]
@@ -213,7 +230,7 @@ def run_linear(run):
                 c = z3.RealVal(1)
             else:
                 sw = z3.Function("W_s", z3.IntSort(), z3.IntSort(), R)(j, 0) if wkind.endswith("axis0") else z3.Const("W_s", R)
-                c = sw * (z3.Const("X_s", R) if akind != "float" else 1)
+                c = sw * (z3.Const("X_s", R) if akind not in ("float", "qint4") else 1)
             fkr = z3.ToReal(fk) if z3.is_int(fk) else fk
             # the sum term is applied at sargs: the summand closure was built for those indices, check they are the result's own
             same_idx = z3.And(*[a == zi(b) for a, b in zip(sargs, ids)]) if len(sargs) == len(ids) else z3.BoolVal(True)
@@ -424,6 +441,9 @@ def replay(model, seed, inst):
             b = torch.randn(N).to(dt) if inst["bias"] else None
             if inst["activation"] == "float":
                 qx, xd = x, x
+            elif inst["activation"] == "qint4":
+                qx = quantize_weight(x.reshape(-1, K), qtypes["qint4"], 0)
+                xd = qx.dequantize()
             else:
                 aq = qtypes[{"qint8": "qint8", "qfloat8": "qfloat8_e4m3fn", "qfloat8_e5m2": "qfloat8_e5m2"}[inst["activation"]]]
                 qx = quantize_activation(x, aq, absmax_scale(x, aq))
